@@ -25,7 +25,43 @@ CHECKS = {
 NOT_APPLICABLE = {
     "C17": "Algebraic law of the pure function helpers.lru_variations: no history, schedule, I/O, fault or interleaving enters it, so deterministic simulation has nothing to decide; its history-dependent consequence (same webentity whichever variation arrives first) is exercised under C06.",
 }
-PENDING = {k: "check not built yet (work in progress; see DESIGN.md §5.%s)" % k for k in ("C09","C10","C11","C14","C15","C16","C18")}
+PENDING = {}
+
+ENGINES = [
+    {"name": "seq", "path": "sim/engine.py", "serves_properties": ["C01","C02","C03","C04","C05","C06","C07","C08","C10","C12","C13","C14","C19","C20"], "kind_free_text": "sequential-history deterministic simulation: real traph package on SimDisk (sim/simdisk.py), lock-step reference model (sim/model.py), observation sweeps (sim/oracles.py), independent raw-store parser (sim/fsck.py), seeded swarm workload (sim/workload.py), ddmin shrinker and explicit-op replay files (sim/runner.py)"},
+]
+
+CHECKS.update({
+    "C09": ("exploration", "pager", "Seeded histories, then quiescent token chains for every webentity x page sizes x crawled-only, and a pager whose successive calls are separated by seeded page-inserting requests (explicit interleaving): completeness, order, no duplicates, exact page sizes, token round-trip, termination bound.", "5.C09"),
+    "C10": ("exploration", "seq", "Seeded link histories; token chains for every webentity x source-page counts x the three legal switch settings against the unpaginated answer of the same index and against the model; every issued token is resumed; termination bound.", "5.C10"),
+    "C11": ("fault_enumeration", "restart", "Per sampled history, close+reopen is inserted at EVERY position (exhaustive per history), plus seeded multi-restart sets and reopen-after-every-request; each variant is compared request by request (outcome, bytes of both stores) and answer by answer with a never-closed baseline; clear(default, rules) at seeded positions is compared byte for byte with a fresh index and then evolves in lock-step with it.", "5.C11"),
+    "C14": ("exploration", "seq", "Seeded states on the file and memory back-ends x every read-only entry point (about 45 methods; present, absent and unknown arguments; valid and stale tokens; generators abandoned half-way): the simulated disk's write log gains no event and the store bytes are unchanged.", "5.C14"),
+    "C15": ("exploration", "twin", "Twin run of Traph(folder=None) and a fresh file-backed Traph with the same constructor configuration and the same seeded history: identical reports, refusals, answers and store bytes after every request; in real-file runs every block is also read through FileStorage.map() and compared.", "5.C15"),
+    "C16": ("exploration", "sched", "2-3 real generator requests advanced by a seeded scheduler (5 policies, every loop iteration a yield point); no request may fail; final pages and link multigraph must equal the sequential result and a sequentially executed twin; in/out symmetry and raw-store invariants at the end; page and network query answers are bounded by per-step raw-store snapshots. Seeded schedules, not exhaustive.", "5.C16"),
+    "C18": ("fault_enumeration", "crash", "Per sampled write history, EVERY cut of its program-ordered write log (block granularity; byte granularity for appends) is reconstructed and reopened by the real constructor: it must be refused with TraphException exactly when a file is partial or one store is missing, otherwise every read-only traversal must complete and report only pages and links of the completed history. A seeded sample of cuts is executed as in-line crashes and must leave identical bytes.", "5.C18"),
+})
+ENGINE_NOTES = {
+    "pager": SEQ_NOTE,
+    "restart": "Trusted base: the never-closed baseline run is itself real code (differential oracle), the model is used only to resolve symbolic webentity references and to decide which rules the caller re-supplies; SimFile stub (8% of runs use real files instead). Restart positions are enumerated completely per history; histories are sampled.",
+    "twin": "Trusted base: differential oracle between two real back-ends; the model only resolves symbolic references and derives the questions asked. The mmap clause needs real files and is evaluated in about 20% of the runs.",
+    "sched": "Trusted base: independent raw-store parser for snapshots, reference model for the sequential result, the sequential twin is real code. should_yield is replaced so that every loop iteration yields (a superset of the shipped yield points). Schedules are sampled by seed; not exhaustive.",
+    "crash": "Trusted base: the disk model is the one the property states (ordered, write-through, atomic in-place block rewrites); log-prefix reconstruction is cross-checked against real in-line crashes. All cuts of each sampled history are enumerated; histories are sampled.",
+}
+TECH = {
+    "C09": "deterministic simulation: seeded histories + pager task interleaved with seeded writers, reference-model oracle",
+    "C11": "deterministic simulation with fault injection: restart (close/reopen, clear) at every position of each seeded history, differential against a never-closed twin",
+    "C14": "deterministic simulation: write-log monitoring on a simulated disk across every read-only call",
+    "C15": "deterministic simulation: differential twin run across storage back-ends, plus real-file mmap reads",
+    "C16": "deterministic simulation: seeded cooperative scheduler over the library's generator requests, per-step snapshot oracles",
+    "C18": "deterministic simulation with fault injection: crash at every cut of the simulated disk's write log (block and byte granularity), reopen and sweep",
+}
+ENGINES += [
+    {"name": "pager", "path": "sim/pagination.py", "serves_properties": ["C09"], "kind_free_text": "sequential engine plus a pager task whose calls are interleaved with seeded writer requests"},
+    {"name": "restart", "path": "sim/twins.py", "serves_properties": ["C11"], "kind_free_text": "restart-position enumeration against a never-closed twin; clear vs fresh index"},
+    {"name": "twin", "path": "sim/twins.py", "serves_properties": ["C15"], "kind_free_text": "memory vs file back-end twin; mmap reader on real files"},
+    {"name": "sched", "path": "sim/sched.py", "serves_properties": ["C16"], "kind_free_text": "seeded cooperative scheduler for *_iter generator requests with per-step raw-store snapshots"},
+    {"name": "crash", "path": "sim/crash.py", "serves_properties": ["C18"], "kind_free_text": "crash-cut enumeration over the SimDisk write log, in-line crash cross-check"},
+]
 
 def main():
     checks = []
@@ -62,11 +98,6 @@ def main():
         json.dump(doc, f, indent=1)
     print("wrote MANIFEST.json with %d checks, %d not_applicable" % (len(checks), len(na)))
 
-ENGINE_NOTES = {}
-TECH = {}
-ENGINES = [
-    {"name": "seq", "path": "sim/engine.py", "serves_properties": sorted(k for k, v in CHECKS.items() if v[1] == "seq"), "kind_free_text": "sequential-history deterministic simulation: real traph package on SimDisk (sim/simdisk.py), lock-step reference model (sim/model.py), observation sweeps (sim/oracles.py), independent raw-store parser (sim/fsck.py), seeded swarm workload (sim/workload.py), ddmin shrinker and explicit-op replay files (sim/runner.py)"},
-]
 
 if __name__ == "__main__":
     main()
